@@ -88,6 +88,29 @@ func TestC12(t *testing.T) {
 				"retired_schema_ids": fm.RetiredIDs, "dictionary_replacements": fm.DictReplacements, "payloads": fm.Payloads})
 		}
 	})
+	// sibling payload types built from the same prototype schema on one producer (classic and
+	// exponential histograms, both with exemplars carrying filtered attributes; number points with
+	// exemplars): their records often have the SAME adaptive schema, so only the payload type keeps
+	// their sub-streams apart
+	r.Layer("sibling-types", e.Pick(30, 300), func(c *vc.Case) {
+		g := gen.New(c.R, gen.DValid)
+		g.Carve = carve
+		h := &History{Script: "sibling-types"}
+		nb := 2 + c.R.IntN(5)
+		for k := 0; k < nb; k++ {
+			g.ZeroBias = []float64{0.05, 0.15, 0.3}[c.R.IntN(3)]
+			g.SameAttrBias = []float64{0, 0.5}[c.R.IntN(2)]
+			h.Batches = append(h.Batches, MB(g.Metrics(4+c.R.IntN(8), [][]int{{3, 4}, {3, 4, 1}, {3, 4, 2, 5}}[c.R.IntN(3)])))
+		}
+		o := RandomOpts(c.R)
+		o.SpanOrder, o.A16, o.A32 = -1, -1, -1
+		fm, _ := frameHistory(c, h, o, "C12")
+		c.FP(h.Script, o.String(), fmt.Sprintf("ret=%d rep=%d nb=%d", fm.RetiredIDs, fm.DictReplacements, nb))
+		c.Nontrivial(fm.RetiredIDs > 0 || fm.DictReplacements > 0)
+		if c.Idx < 3 {
+			c.Sample(map[string]any{"script": h.Script, "options": o.String(), "batches": nb, "payloads": fm.Payloads})
+		}
+	})
 	// refused batches inside a stream: ids must be gap-free over the batches that WERE emitted and the
 	// sub-streams must stay valid although the producer discarded half-built records
 	r.Layer("refused", e.Pick(numOversizeKinds, 3*numOversizeKinds), func(c *vc.Case) {
